@@ -17,7 +17,42 @@ type Locker interface {
 // Map and Pool are not synchronisation points the explorer needs to see; the real ones are fine in
 // a one-thread-at-a-time world.
 type Map = realsync.Map
-type Pool = realsync.Pool
+
+// Pool is a deterministic model of sync.Pool: a LIFO free list that never drops anything (the real
+// pool may drop items at any time, which only makes reuse rarer).
+type Pool struct {
+	New        func() any
+	items      []any
+	registered bool
+}
+
+// a pool that outlives an execution (a package-level variable) starts every execution empty
+func (p *Pool) register() {
+	if !p.registered {
+		p.registered = true
+		mc.RegisterReset(func() { p.items = nil })
+	}
+}
+
+func (p *Pool) Get() any {
+	p.register()
+	mc.Point("Pool.Get")
+	if n := len(p.items); n > 0 {
+		x := p.items[n-1]
+		p.items = p.items[:n-1]
+		return x
+	}
+	if p.New != nil {
+		return p.New()
+	}
+	return nil
+}
+
+func (p *Pool) Put(x any) {
+	p.register()
+	mc.Point("Pool.Put")
+	p.items = append(p.items, x)
+}
 
 type Mutex struct {
 	locked bool
